@@ -82,7 +82,7 @@ def generate(rng, tier):
     root_name = rng.choice(["main.rs", "lib.rs", "root.rs", "src/main.rs", "src/lib.rs"])
     root = os.path.join(base, root_name)
     names = list(NAMES)
-    budget = [rng.range(1, 9)]
+    budget = [rng.range(1, 9 if tier != "thorough" else 14)]
     ignore_pats = []
     generated_cfg = "generated" in feats and rng.chance(70)
     tags = {}
